@@ -3,6 +3,7 @@ package main
 import (
 	"fmt"
 	"go/ast"
+	"go/token"
 	"go/types"
 	"sort"
 	"strings"
@@ -13,7 +14,7 @@ import (
 func checkC35(c *Ctx) (string, []string) {
 	X := "internal/extrinsic."
 	get := func(n string) *ssa.Function { return c.Fn(extrPkg, n) }
-	cmpF, lam, upo, gbw, disj, clr, disp := get("CompareVerdictsWithPsi"), get("updateListAndMap"), get("DisputeController.UpdatePsiO"), get("DisputeController.UpdatePsiGBW"), get("VerdictController.SetDisjoint"), get("VerdictController.ClearWorkReports"), get("Disputes")
+	cmpF, upo, gbw, disj, clr, disp := get("CompareVerdictsWithPsi"), get("DisputeController.UpdatePsiO"), get("DisputeController.UpdatePsiGBW"), get("VerdictController.SetDisjoint"), get("VerdictController.ClearWorkReports"), get("Disputes")
 	if len(c.fatal) > 0 {
 		return "", nil
 	}
@@ -37,72 +38,91 @@ func checkC35(c *Ctx) (string, []string) {
 		}
 	}
 
-	c.Rule("C35.vote-split", "CompareVerdictsWithPsi classifies a verdict by its positive-vote count: ⌊2V/3⌋+1 ↦ good, 0 ↦ bad, ⌊V/3⌋ ↦ wonky, anything else is an error (case expressions evaluated for V ∈ {5,6,7,9,100,1023}); each case appends the verdict's report hash to the same-named list", 4)
-	if fd, p := c.FuncDecl(extrPkg, "CompareVerdictsWithPsi"); fd != nil {
-		var sw *ast.SwitchStmt
-		ast.Inspect(fd.Body, func(n ast.Node) bool {
-			if s, ok := n.(*ast.SwitchStmt); ok && sw == nil {
-				sw = s
+	c.Rule("C35.vote-split", "CompareVerdictsWithPsi classifies a verdict by its positive-vote count: ⌊2V/3⌋+1 ↦ good, 0 ↦ bad, ⌊V/3⌋ ↦ wonky, anything else is an error (case expressions evaluated for V ∈ {5,6,7,9,100,1023}); decided by following one loop iteration per (V, count) and recording which list receives the report hash", 2)
+	{
+		o := robustOpts
+		var anyApp *ssa.Call
+		allInstrs(cmpF, func(in ssa.Instruction) {
+			if call, ok := in.(*ssa.Call); ok {
+				if b, ok := call.Call.Value.(*ssa.Builtin); ok && b.Name() == "append" && strings.HasSuffix(abbr(exprStr(call.Call.Args[1], o)), ".ReportHash][:]") {
+					anyApp = call
+				}
 			}
-			return true
 		})
-		if sw == nil || !strings.HasSuffix(types.ExprString(sw.Tag), ".PositiveJudgmentsSum") {
-			c.Unknown("C35.vote-split", X+"CompareVerdictsWithPsi", fd.Pos(), "no switch on the positive-vote count")
+		if anyApp == nil {
+			c.Bad("C35.vote-split", X+"CompareVerdictsWithPsi · classes", cmpF.Pos(), "no report hash is appended to a judgement list")
 		} else {
-			want := map[string]func(V int64) int64{
-				"Good":  func(V int64) int64 { return V*2/3 + 1 },
-				"Bad":   func(V int64) int64 { return 0 },
-				"Wonky": func(V int64) int64 { return V / 3 },
+			h, in := natLoop(anyApp.Block())
+			classOf := func(V, s int64) (string, bool) {
+				var lists []string
+				outcome, ret, ok := iterRun(h, in, o, func(r string) (int64, bool) {
+					if strings.HasSuffix(r, ".PositiveJudgmentsSum") {
+						return s, true
+					}
+					return 0, false
+				}, map[string]int64{"ValidatorsCount": V}, func(ins ssa.Instruction, choice map[*ssa.Phi]ssa.Value) {
+					st, isSt := ins.(*ssa.Store)
+					if !isSt {
+						return
+					}
+					call, isCall := st.Val.(*ssa.Call)
+					if !isCall {
+						return
+					}
+					if b, isB := call.Call.Value.(*ssa.Builtin); !isB || b.Name() != "append" || !strings.HasSuffix(abbr(exprStr(call.Call.Args[1], o)), ".ReportHash][:]") {
+						return
+					}
+					if fa, isFA := resolveChoice(st.Addr, choice).(*ssa.FieldAddr); isFA {
+						lists = append(lists, fieldName(fa.X.Type(), fa.Field))
+					}
+				})
+				if !ok {
+					return "", false
+				}
+				switch {
+				case outcome == "return" && ret != nil && isErrorReturn(cmpF, ret) && len(lists) == 0:
+					return "error", true
+				case outcome == "next" && len(lists) == 1:
+					return lists[0], true
+				}
+				return fmt.Sprintf("%s%v", outcome, lists), true
 			}
-			seen := map[string]bool{}
-			defaultErr := false
-			for _, st := range sw.Body.List {
-				cl := st.(*ast.CaseClause)
-				if cl.List == nil {
-					for _, b := range cl.Body {
-						if r, ok := b.(*ast.ReturnStmt); ok && len(r.Results) == 2 && types.ExprString(r.Results[1]) != "nil" {
-							defaultErr = true
-						}
+			bad := ""
+			n := 0
+			for _, V := range Vs {
+				want := map[int64]string{V*2/3 + 1: "Good", 0: "Bad", V / 3: "Wonky"}
+				for _, s := range []int64{0, 1, V/3 - 1, V / 3, V/3 + 1, V * 2 / 3, V*2/3 + 1, V*2/3 + 2, V} {
+					if s < 0 {
+						continue
 					}
-					continue
-				}
-				// which list does the body append to?
-				list := ""
-				for _, b := range cl.Body {
-					if as, ok := b.(*ast.AssignStmt); ok && len(as.Lhs) == 1 {
-						if sel, ok := as.Lhs[0].(*ast.SelectorExpr); ok {
-							if call, ok := as.Rhs[0].(*ast.CallExpr); ok && types.ExprString(call.Fun) == "append" && len(call.Args) == 2 && types.ExprString(call.Args[0]) == types.ExprString(sel) && strings.Contains(types.ExprString(call.Args[1]), ".ReportHash") {
-								list = sel.Sel.Name
-							}
-						}
+					w, has := want[s]
+					if !has {
+						w = "error"
 					}
-				}
-				key := X + "CompareVerdictsWithPsi · case " + types.ExprString(cl.List[0])
-				f, known := want[list]
-				if !known || len(cl.List) != 1 {
-					c.Bad("C35.vote-split", key, cl.Pos(), "case does not append the report hash to Good, Bad or Wonky (appends to %q)", list)
-					continue
-				}
-				seen[list] = true
-				bad := ""
-				for _, V := range Vs {
-					got, ok := astEval(p.TypesInfo, cl.List[0], vcResolve(V, 0, ""))
+					got, ok := classOf(V, s)
+					n++
 					if !ok {
-						bad = "case expression is not arithmetic over the validator count"
-					} else if got.i != f(V) {
-						bad = fmt.Sprintf("for V=%d the %s threshold is %d, GP 10.11-10.12 gives %d", V, strings.ToLower(list), got.i, f(V))
+						bad = "the classification depends on something other than the positive-vote count and the validator count"
+					} else if got != w {
+						bad = fmt.Sprintf("with V=%d a verdict with %d positive votes is classified %s; GP 10.11-10.12 gives %s", V, s, got, w)
+					}
+					if bad != "" {
+						break
 					}
 				}
-				if bad == "" {
-					c.OK("C35.vote-split", key, cl.Pos(), "%s threshold correct for %d validator counts (%d..%d)", strings.ToLower(list), len(Vs), Vs[0], Vs[len(Vs)-1])
-				} else {
-					c.Bad("C35.vote-split", key, cl.Pos(), "%s", bad)
+				if bad != "" {
+					break
 				}
 			}
-			c.Check(seen["Good"] && seen["Bad"] && seen["Wonky"] && defaultErr, "C35.vote-split", X+"CompareVerdictsWithPsi · exhaustive", sw.Pos(), "three classes and an error for every other count", fmt.Sprintf("classes present %v, other counts rejected=%v", seen, defaultErr))
+			c.Check(bad == "", "C35.vote-split", X+"CompareVerdictsWithPsi · classes", anyApp.Pos(), fmt.Sprintf("⌊2V/3⌋+1 ↦ good, 0 ↦ bad, ⌊V/3⌋ ↦ wonky, anything else an error (%d evaluations, V = %d..%d)", n, Vs[0], Vs[len(Vs)-1]), bad)
+			// the three lists are what is returned
+			rs := abbrMap(returnShapesO(cmpF, o))
+			okRet := len(rs["ret#0.Good"]) > 0 || len(rs["ret#0"]) > 0
+			c.Check(okRet, "C35.vote-split", X+"CompareVerdictsWithPsi · result", cmpF.Pos(), "returns the three lists", "the classified lists are not returned")
 		}
 	}
 	_ = cmpF
+	_ = vcResolve
 
 	c.Rule("C35.clearing", "ClearWorkReports removes from pending availability exactly the reports judged bad or wonky: its threshold predicate holds for 0 and ⌊V/3⌋ positive votes and fails for ⌊2V/3⌋+1 (evaluated for V ∈ {5,6,7,9,100,1023}); the cleared set is matched against the hash of each pending report", 2)
 	if fd, p := c.FuncDecl(extrPkg, "VerdictController.ClearWorkReports"); fd != nil {
@@ -183,55 +203,9 @@ func checkC35(c *Ctx) (string, []string) {
 		if f == nil {
 			continue
 		}
-		c.checkShapes("C35.sets", X+"UpdatePsi"+n[:1], f, abbrMap(returnShapes(f)), map[string][]string{"ret": {X + "updateListAndMap(p0." + n + ", p1." + n + ", makemap)"}})
-		// the membership map is filled from the same prior list
-		ok := false
-		allInstrs(f, func(in ssa.Instruction) {
-			if mu, isMu := in.(*ssa.MapUpdate); isMu && exprStr(mu.Key, shapeOpts) == "p0."+n+"[*]" {
-				ok = true
-			}
-		})
-		c.Check(ok, "C35.sets", X+"UpdatePsi"+n[:1]+" · membership", f.Pos(), "membership map built from the prior "+n+" list", "membership map is not built from the prior "+n+" list")
+		c35Merge(c, f, X+"UpdatePsi"+n[:1], "p0."+n, "p1."+n, n)
 	}
-	if fd, p := c.FuncDecl(extrPkg, "updateListAndMap"); fd != nil {
-		ok, why := returnsSortedBy(p, fd, "")
-		if !ok {
-			// comparator on whole elements: result[i][:] vs result[j][:]
-			ok = sortsWholeBefore(p, fd)
-		}
-		c.Check(ok, "C35.sets", X+"updateListAndMap · sorted", fd.Pos(), "result sorted by hash bytes immediately before it is returned", "merged set is returned in (prior, then verdict) order, not sorted: "+why)
-	}
-	c.checkCondSet("C35.sets", X+"updateListAndMap", lam, []string{"(* < len(p1))", "p2[p1[*]]"})
-	{
-		effs := abbrAll(effectShapesOpt(lam, func(string) bool { return false }, true))
-		has := map[string]bool{}
-		for _, e := range effs {
-			has[e] = true
-		}
-		c.Check((has["copy(*alloc:[]types.WorkReportHash, p0)"] || has["copy(make([]types.WorkReportHash, len(p0)), p0)"]) && has["mapset p2[p1[*]] ← true"], "C35.sets", X+"updateListAndMap · merge", lam.Pos(), "starts from a copy of the prior list, adds each new hash once", fmt.Sprintf("merge effects are %v", effs))
-	}
-	if fd, p := c.FuncDecl(extrPkg, "DisputeController.UpdatePsiO"); fd != nil {
-		c.Check(sortsWholeBefore(p, fd), "C35.sets", X+"UpdatePsiO · sorted", fd.Pos(), "offender list sorted by key bytes before it is stored", "offenders are stored unsorted")
-	}
-	{
-		// psiO = prior offenders ⌢ new: the stored slice is appended from prior.Offenders first
-		var apps []string
-		allInstrs(upo, func(in ssa.Instruction) {
-			if call, ok := in.(*ssa.Call); ok {
-				if b, ok := call.Call.Value.(*ssa.Builtin); ok && b.Name() == "append" {
-					apps = append(apps, abbr(exprStr(call.Call.Args[1], shapeOpts)))
-				}
-			}
-		})
-		hasPrior := false
-		for _, a := range apps {
-			if a == "prior.GetPsi(PRIOR).Offenders" {
-				hasPrior = true
-			}
-		}
-		c.Check(hasPrior, "C35.sets", X+"UpdatePsiO · grows", upo.Pos(), "every prior offender is carried into ψ_o'", fmt.Sprintf("prior offenders are not appended to the new list (appends: %v)", apps))
-		c.checkCondSet("C35.sets", X+"UpdatePsiO", upo, []string{"(* < len(prior.GetPsi(PRIOR).Offenders))", "(* < len(p1))", "(* < len(p2))", "makemap[p1[*].Key]", "makemap[p2[*].Key]"})
-	}
+	c35Offenders(c, upo, X+"UpdatePsiO")
 	cv := X + "CompareVerdictsWithPsi(prior.GetPsi(PRIOR), p1)#0"
 	for _, n := range []string{"G", "B", "W"} {
 		c.requireCall("C35.sets", X+"UpdatePsiGBW", gbw, "SetPsi"+n, []string{"POST ‖ " + X + "UpdatePsi" + n + "(prior.GetPsi(PRIOR), " + cv + ")"})
@@ -397,4 +371,229 @@ func adjacentValueArgs(call *ssa.Call) (prevThenCur bool, ok bool) {
 		return false, true
 	}
 	return false, false
+}
+
+// c35Helpers: rendering options that see through the unexported helpers and closures of the package.
+func c35Helpers(root *ssa.Function) exprOpts {
+	o := robustOpts
+	o.inline = func(f *ssa.Function) bool {
+		if f == nil || len(f.Blocks) == 0 || f == root {
+			return false
+		}
+		if f.Parent() != nil {
+			return true
+		}
+		return f.Pkg != nil && f.Pkg == root.Pkg && !token.IsExported(f.Name()) && f.Signature.Recv() == nil
+	}
+	return o
+}
+
+type c35site struct {
+	in    ssa.Instruction
+	g     *ssa.Function
+	subst map[ssa.Value]string
+}
+
+// c35Merge: posterior set = sorted(prior ∪ new), de-duplicated — helpers seen through.
+func c35Merge(c *Ctx, f *ssa.Function, key, prior, added, name string) {
+	o := c35Helpers(f)
+	var seedPrior, markNew, freshPrior bool
+	var app, sortCall *c35site
+	visitWithHelpers(f, o, func(g *ssa.Function, subst map[ssa.Value]string, in ssa.Instruction) {
+		switch x := in.(type) {
+		case *ssa.MapUpdate:
+			switch abbr(exprStrSubst(x.Key, o, subst)) {
+			case prior + "[*]":
+				seedPrior = true
+			case added + "[*]":
+				markNew = true
+			}
+		case *ssa.Call:
+			if b, ok := x.Call.Value.(*ssa.Builtin); ok {
+				switch b.Name() {
+				case "copy":
+					if abbr(exprStrSubst(x.Call.Args[1], o, subst)) == prior && holdsFreshMake(x.Call.Args[0]) {
+						freshPrior = true
+					}
+				case "append":
+					el := abbr(exprStrSubst(x.Call.Args[1], o, subst))
+					if el == "["+added+"[*]][:]" {
+						app = &c35site{in, g, subst}
+					}
+					if el == prior && abbr(exprStrSubst(x.Call.Args[0], o, subst)) != prior {
+						if isFreshSliceBase(x.Call.Args[0]) {
+							freshPrior = true
+						}
+					}
+				}
+			} else if _, ok := byteOrderSort(x); ok {
+				sortCall = &c35site{in, g, subst}
+			}
+		}
+	})
+	c.Check(seedPrior, "C35.sets", key+" · membership", f.Pos(), "membership set built from the prior "+name+" list", "membership map is not built from the prior "+name+" list")
+	c.Check(freshPrior, "C35.sets", key+" · starts from prior", f.Pos(), "the result starts as a private copy of the prior list", "the result does not start from a private copy of the prior "+name+" list")
+	if app == nil {
+		c.Bad("C35.sets", key+" · merge", f.Pos(), "the new %s reports are not appended to the result", name)
+	} else {
+		call := app.in.(*ssa.Call)
+		bad := ""
+		for m := int64(0); m <= 1 && bad == ""; m++ {
+			reached, ok := iterReaches(call, o, app.subst, func(s string) (int64, bool) {
+				if strings.HasSuffix(s, "["+added+"[*]]") || strings.HasSuffix(s, "["+added+"[*]]#1") {
+					return m, true
+				}
+				return 0, false
+			})
+			if !ok {
+				bad = "the decision to add a new report depends on something other than its membership in the set"
+			} else if reached != (m == 0) {
+				bad = fmt.Sprintf("a report with already-present=%d is added=%v", m, reached)
+			}
+		}
+		c.Check(bad == "" && markNew, "C35.sets", key+" · merge", call.Pos(), "a new report is added exactly when not yet present, and then marked present", "merge: "+bad+fmt.Sprintf(" (marks added reports as present: %v)", markNew))
+	}
+	if sortCall == nil {
+		c.Bad("C35.sets", key+" · sorted", f.Pos(), "merged set is returned in (prior, then verdict) order, not sorted by hash bytes")
+	} else {
+		call := sortCall.in.(*ssa.Call)
+		sorted := abbr(exprStr(call.Call.Args[0], o))
+		okRet := true
+		allInstrs(sortCall.g, func(in ssa.Instruction) {
+			if r, ok := in.(*ssa.Return); ok && len(r.Results) == 1 && abbr(exprStr(r.Results[0], o)) != sorted {
+				okRet = false
+			}
+		})
+		_, skip := findPath(pathQuery{fn: sortCall.g, target: isReturn, blocker: func(in ssa.Instruction) bool { return in == sortCall.in }, edgeBlock: constFeasible})
+		c.Check(okRet && !skip, "C35.sets", key+" · sorted", call.Pos(), "result sorted by hash bytes on every path before it is returned", "the sorted list is not the returned one, or a path returns without sorting")
+	}
+}
+
+func isFreshSliceBase(v ssa.Value) bool {
+	switch x := stripConv(v).(type) {
+	case *ssa.MakeSlice:
+		return true
+	case *ssa.Const:
+		return x.IsNil()
+	case *ssa.Slice:
+		if k, ok := constInt(x.High); ok && k == 0 {
+			return isFreshSliceBase(x.X)
+		}
+	}
+	return false
+}
+
+// c35Offenders: ψ_o' = sorted(prior offenders ∪ culprit keys ∪ fault keys), new keys added once.
+func c35Offenders(c *Ctx, f *ssa.Function, key string) {
+	o := c35Helpers(f)
+	prior := "prior.GetPsi(PRIOR).Offenders"
+	var hasPrior bool
+	var sortCall *ssa.Call
+	apps := map[string]*c35site{}
+	marks := map[string]bool{}
+	visitWithHelpers(f, o, func(g *ssa.Function, subst map[ssa.Value]string, in ssa.Instruction) {
+		switch x := in.(type) {
+		case *ssa.MapUpdate:
+			marks[abbr(exprStrSubst(x.Key, o, subst))] = true
+		case *ssa.Call:
+			if b, ok := x.Call.Value.(*ssa.Builtin); ok {
+				switch b.Name() {
+				case "append":
+					el := abbr(exprStrSubst(x.Call.Args[1], o, subst))
+					switch el {
+					case prior:
+						hasPrior = true
+					case "[p1[*].Key][:]":
+						apps["culprit"] = &c35site{in, g, subst}
+					case "[p2[*].Key][:]":
+						apps["fault"] = &c35site{in, g, subst}
+					}
+				case "copy":
+					if abbr(exprStrSubst(x.Call.Args[1], o, subst)) == prior {
+						hasPrior = true
+					}
+				}
+			} else if fld, ok := byteOrderSort(x); ok && fld == "" && g == f {
+				sortCall = x
+			}
+		}
+	})
+	c.Check(hasPrior, "C35.sets", key+" · grows", f.Pos(), "every prior offender is carried into ψ_o'", "prior offenders are not carried into the new list")
+	for _, kind := range []string{"culprit", "fault"} {
+		pk := map[string]string{"culprit": "p1[*].Key", "fault": "p2[*].Key"}[kind]
+		s := apps[kind]
+		if s == nil {
+			c.Bad("C35.sets", key+" · "+kind+" keys", f.Pos(), "%s keys are not added to the offenders", kind)
+			continue
+		}
+		call := s.in.(*ssa.Call)
+		bad := ""
+		for m := int64(0); m <= 1 && bad == ""; m++ {
+			var reached, ok bool
+			av := func(r string) (int64, bool) {
+				if strings.HasSuffix(r, "["+pk+"]") || strings.HasSuffix(r, "["+pk+"]#1") || strings.HasSuffix(r, "[p0]") || strings.HasSuffix(r, "[p0]#1") {
+					return m, true
+				}
+				return 0, false
+			}
+			if h, _ := natLoop(call.Block()); h != nil {
+				reached, ok = iterReaches(call, o, s.subst, av)
+			} else {
+				reached, ok = reachesInFunc(call, o, av)
+			}
+			if !ok {
+				bad = "the decision to add a key depends on something other than its membership in the offender set"
+			} else if reached != (m == 0) {
+				bad = fmt.Sprintf("a key with already-present=%d is added=%v", m, reached)
+			}
+		}
+		c.Check(bad == "" && (marks[pk] || marks["p0"]), "C35.sets", key+" · "+kind+" keys", call.Pos(), "a "+kind+" key is added exactly when not yet an offender, and then marked", kind+" keys: "+bad)
+	}
+	if sortCall == nil {
+		c.Bad("C35.sets", key+" · sorted", f.Pos(), "offenders are stored unsorted")
+	} else {
+		// the sorted list is the one stored, and the sort precedes the store on every path
+		sorted := abbr(exprStr(sortCall.Call.Args[0], o))
+		var setter ssa.CallInstruction
+		allInstrs(f, func(in ssa.Instruction) {
+			if ci, ok := in.(ssa.CallInstruction); ok {
+				n := ""
+				if ci.Common().IsInvoke() {
+					n = ci.Common().Method.Name()
+				} else if sc := calleeFunc(ci); sc != nil {
+					n = sc.Name()
+				}
+				if n == "SetPsiO" {
+					setter = ci
+				}
+			}
+		})
+		ok := setter != nil && abbr(exprStr(setter.Common().Args[len(setter.Common().Args)-1], o)) == sorted
+		if ok {
+			_, skip := findPath(pathQuery{fn: f, target: func(in ssa.Instruction) bool { return in == setter.(ssa.Instruction) }, blocker: func(in ssa.Instruction) bool { return in == ssa.Instruction(sortCall) }})
+			ok = !skip
+		}
+		c.Check(ok, "C35.sets", key+" · sorted", sortCall.Pos(), "offender list sorted by key bytes before it is stored", "offenders are stored unsorted (the stored list is not the sorted one, or the store can precede the sort)")
+	}
+}
+
+// holdsFreshMake: v is a slice made in this function (directly, or the content
+// of a local variable that was assigned such a slice, e.g. one captured by a closure).
+func holdsFreshMake(v ssa.Value) bool {
+	v = stripConv(v)
+	if _, ok := v.(*ssa.MakeSlice); ok {
+		return true
+	}
+	if u, ok := v.(*ssa.UnOp); ok && u.Op == token.MUL {
+		if a, ok := u.X.(*ssa.Alloc); ok {
+			for _, r := range *a.Referrers() {
+				if st, ok := r.(*ssa.Store); ok && st.Addr == ssa.Value(a) {
+					if _, isMk := stripConv(st.Val).(*ssa.MakeSlice); isMk {
+						return true
+					}
+				}
+			}
+		}
+	}
+	return false
 }
